@@ -221,7 +221,11 @@ class TranslateNode(Node, TranslatableTag):
         message_context = self.args.get(self.message_context_var)
 
         if self.plural_block:
-            if message_context and isinstance(message_context.value, StringLiteral):
+            if (
+                message_context
+                and isinstance(message_context.value, StringLiteral)
+                and message_context.value.value
+            ):
                 funcname = "npgettext"
                 message: MESSAGES = (
                     (message_context.value.value, "c"),
@@ -234,7 +238,11 @@ class TranslateNode(Node, TranslatableTag):
                     self.singular_block.text,
                     self.plural_block.text,
                 )
-        elif message_context and isinstance(message_context.value, StringLiteral):
+        elif (
+            message_context
+            and isinstance(message_context.value, StringLiteral)
+            and message_context.value.value
+        ):
             funcname = "pgettext"
             message = (
                 (message_context.value.value, "c"),
